@@ -64,7 +64,7 @@ func hasMutableRef(t types.Type, seen map[types.Type]bool, path string) string {
 func RuleListen(r *Report, p *Program) {
 	r.Rule("LS1", "for every datagram the handler makes exactly one of {error callback, forward}; it forwards only a 64-byte datagram with a non-zero serial number that decoded without error, as a value freshly allocated for that datagram", 1)
 	r.Rule("LS2", "the forwarded event holds no slice/map/pointer to mutable storage, so it cannot alias the reused receive buffer", 1)
-	r.Rule("LS3", "one unbuffered pipe, one consuming goroutine that calls the event callback exactly once per element and ends when the pipe is closed", 2)
+	r.Rule("LS3", "one pipe, one consuming goroutine that calls the event callback exactly once per element and ends when the pipe is closed", 2)
 	r.Rule("LS4", "the connected callback fires exactly once, after the driver has bound the socket and before waiting for the stop signal; on a bind error it never fires", 1)
 	r.Rule("LS5", "shutdown order: signal the driver, wait for its loop to finish, then return nil", 1)
 	r.Rule("LS6", "driver: the socket is closed after the stop signal; the read loop calls the handler with the bytes just read and closes 'done' after the loop", 2)
@@ -285,14 +285,15 @@ func RuleListen(r *Report, p *Program) {
 		}
 		d := ""
 		switch {
-		case nChan != 1 || !unbuffered:
-			d = fmt.Sprintf("%d pipes (unbuffered=%v): delivery order needs exactly one unbuffered pipe", nChan, unbuffered)
+		case nChan != 1:
+			d = fmt.Sprintf("%d pipes: delivery order needs exactly one pipe between the receive loop and the consumer", nChan)
 		case nGo != 1 || consumer == nil:
 			d = fmt.Sprintf("%d consumer goroutines", nGo)
 		case !deferClose:
 			d = "the pipe is not closed when listening ends, so the consumer goroutine never ends"
 		}
-		r.Check(d == "", "LS3", "Listen:pipe", p.Pos(lfn.Pos()), "one unbuffered pipe, one consumer, closed on return", d)
+		_ = unbuffered
+		r.Check(d == "", "LS3", "Listen:pipe", p.Pos(lfn.Pos()), "one pipe, one consumer, closed on return", d)
 		if consumer != nil {
 			cf := consumer.Fn.(*ssa.Function)
 			w := NewWalker(p)
@@ -670,4 +671,19 @@ func stripPtr(t *Term) *Term {
 		return v
 	}
 	return t
+}
+
+// RuleListenSibling runs only the GetStatus ~ listener agreement (A6s).
+func RuleListenSibling(r *Report, p *Program) {
+	tmp := NewReport(r.Property, r.Tier)
+	RuleListen(tmp, p)
+	r.Rule("A6s", "the status built for an event is wired exactly like the status GetStatus returns (sibling implementations agree)", 1)
+	for _, o := range tmp.Obs {
+		if o.Rule == "A6s" {
+			r.add(o)
+		}
+	}
+	for _, f := range tmp.fatal {
+		r.Fatal("A6s", "listener", f)
+	}
 }
